@@ -627,7 +627,7 @@ def one_history(acc, seed, tag, forced=None):
 
 # ---------------------------------------------------------------------------------------------
 # real dispatchers over loopback
-REAL_SCENARIOS = ["peer-close", "local-disconnect", "connect-refused", "stream-error-reconnect", "relogin", "quick-relogin", "failure", "disconnect-before-select"]
+REAL_SCENARIOS = ["peer-close", "local-disconnect", "connect-refused", "stream-error-reconnect", "relogin", "quick-relogin", "failure", "disconnect-before-select", "first-login-reboot"]
 
 
 def real_case(acc, seed, tag, dispatcher_name, scenario):
@@ -638,7 +638,7 @@ def real_case(acc, seed, tag, dispatcher_name, scenario):
     from yowsup.layers.interface import YowInterfaceLayer
     r = gen.rng(seed, ID, tag)
     disp = YowNetworkLayer.DISPATCHER_SOCKET if dispatcher_name == "socket" else YowNetworkLayer.DISPATCHER_ASYNCORE
-    srv = realnet.LoopServer(auto_success=(scenario != "failure"))
+    srv = realnet.LoopServer(auto_success=(scenario != "failure"), answer_uploads=(scenario == "first-login-reboot"))
     srv.start()
     port = srv.port
     if scenario == "connect-refused":
@@ -698,6 +698,59 @@ def real_case(acc, seed, tag, dispatcher_name, scenario):
                 return bad("netthread-hangs", "the network thread did not end after the library closed the connection")
             if c.events(C) != 1 or c.events(D) != 1:
                 return bad("announcements", "connected %d / disconnected %d (expected 1 / 1)" % (c.events(C), c.events(D)))
+            acc.count("real_ok")
+            return True
+        if scenario == "first-login-reboot":
+            # a new account: passive login, key upload, the confirmed upload makes the library close the connection and connect
+            # again (non-passive). The close is requested on the network thread while the 'disconnected' announcement is worked off
+            # by the loop thread: the network thread is held at its next line in the control layer until the loop thread is through.
+            import sys as _sys
+            mon = _sys.monitoring
+            at_point, resume, paused = threading.Event(), threading.Event(), [False]
+            first_thread = c.net_threads[0]
+
+            def cb(code, lineno):
+                if not code.co_filename.endswith("axolotl/layer_control.py"):
+                    return mon.DISABLE
+                if paused[0] or threading.current_thread() is not first_thread or c.events(D) < 1:
+                    return None
+                paused[0] = True
+                w["held_at"] = "%s:%d" % (code.co_name, lineno)
+                at_point.set()
+                resume.wait(5)
+            if yi:
+                yi.__exit__()
+                yi = None
+            try:
+                mon.use_tool_id(inject.TOOL, "vf-reboot")
+            except ValueError:
+                mon.free_tool_id(inject.TOOL)
+                mon.use_tool_id(inject.TOOL, "vf-reboot")
+            mon.register_callback(inject.TOOL, mon.events.LINE, cb)
+            mon.set_events(inject.TOOL, mon.events.LINE)
+            mon.restart_events()
+            try:
+                c.wait(lambda: at_point.is_set() or (len(srv.conns) >= 2 and c.events(A) >= 2), 15)
+                if at_point.is_set():
+                    acc.count("real_reboot_network_thread_held")
+                    # let the loop thread deliver the announcement to every layer first
+                    c.wait(lambda: c.probe_top.event_names().count(D) >= 1 or len(srv.conns) >= 2, 3)
+                    time.sleep(0.05)
+                resume.set()
+                ok_ = c.wait(lambda: len(srv.conns) >= 2 and c.events(A) >= 2, 15)
+            finally:
+                resume.set()
+                mon.set_events(inject.TOOL, 0)
+                mon.register_callback(inject.TOOL, mon.events.LINE, None)
+                mon.free_tool_id(inject.TOOL)
+            if not ok_:
+                return bad("no-reboot", "after the confirmed key upload the library did not come back with a second login (connections at the server: %d, authenticated %d times, "
+                           "passive still %s)" % (len(srv.conns), c.events(A), c.stack.getProp("org.openwhatsapp.yowsup.prop.auth.passive")))
+            cp1, cp2 = srv.conns[0].srv.client_payload, srv.conns[1].srv.client_payload
+            if not (cp1 is not None and cp1.passive) or (cp2 is None or cp2.passive):
+                return bad("reboot-passive-flags", "first login passive=%s, second login passive=%s (expected True then False)" % (getattr(cp1, "passive", None), getattr(cp2, "passive", None)))
+            if c.events(C) != 2 or c.events(D) != 1:
+                return bad("announcements", "connected %d / disconnected %d after the key-upload reconnect (expected 2 / 1)" % (c.events(C), c.events(D)))
             acc.count("real_ok")
             return True
         if not c.wait(lambda: c.events(A) >= 1):
